@@ -3543,7 +3543,9 @@ class State:
 
     def patch_indirect_dependencies(self, module_refs: set[str], types: set[Type]) -> None:
         assert self.ancestors is not None
-        existing_deps = set(self.dependencies + self.suppressed + self.ancestors)
+        # Note: ancestor packages are NOT regular dependencies (no interface hash is recorded
+        # for them), so a type that comes from an ancestor needs an indirect dependency too.
+        existing_deps = set(self.dependencies + self.suppressed)
         existing_deps.add(self.id)
 
         encountered = self.manager.indirection_detector.find_modules(types) | module_refs
